@@ -30,7 +30,7 @@ C3Cfg == [num |-> {2 * Scale}, str |-> {"a"}, bool |-> {TRUE}, arith |-> {"*", "
 M2Cfg == [num |-> {2 * Scale, 32}, str |-> {"a"}, bool |-> {TRUE}, arith |-> MulOps \cup AddOps, rel |-> {"<", ">="},
           eq |-> EqOps, logic |-> {"&&", "||"}, funcs |-> TRUE, pat |-> {"^a"}]
 CfgOf(name) == CASE name = "small" -> SmallCfg [] name = "c1" -> C1Cfg [] name = "c3" -> C3Cfg [] name = "m2" -> M2Cfg
-                 [] name = "full" -> FullCfg
+                 [] name = "full" -> FullCfg [] name = "chain" -> ChainCfg
 GenCfg == CfgOf(GenCfgName)
 GenChainCfg == CfgOf(GenChainCfgName)
 
